@@ -65,6 +65,7 @@ def h_gc(s0: bool, s1: bool, s2: bool, sd0: bool, sd1: bool, u0: bool, u1: bool,
                 used.append(HashInfo("sha256", trees[0].oid))
             keep = {h.value for h in used if h.name == "md5"}
             unloadable = False
+            listed_by_unloadable = set()
             if not SHALLOW:
                 for j in range(ND):
                     if used_d[j]:
@@ -72,6 +73,7 @@ def h_gc(s0: bool, s1: bool, s2: bool, sd0: bool, sd1: bool, u0: bool, u1: bool,
                             keep |= {FO[i] for i in LISTING[j]}
                         else:
                             unloadable = True
+                            listed_by_unloadable |= {FO[i] for i in LISTING[j]}
             expected_removed = set(before) - keep
         outcome, ret = "ok", None
         try:
@@ -96,6 +98,10 @@ def h_gc(s0: bool, s1: bool, s2: bool, sd0: bool, sd1: bool, u0: bool, u1: bool,
                     violation("read-only-store-modified", sorted(set(before) - set(after)))
             elif outcome == "ok":
                 removed = set(before) - set(after)
+                if unloadable and not dry and (removed & listed_by_unloadable) - keep:
+                    # the used directory object could not be expanded (it is not in the store): collecting anyway deletes files a used
+                    # directory lists
+                    violation("file-of-unexpandable-used-directory-removed", sorted(removed & listed_by_unloadable))
                 if dry:
                     if after != before:
                         violation("dry-run-removed-objects", sorted(removed))
